@@ -45,7 +45,8 @@ Definition proj_c18 (a : action) : bool :=
 
 Definition mon_c02 (c : smcase) (t : list action) : bool := match c with KSm _ _ _ cup _ _ _ _ => accepts step2 (init2 cup) t end.
 Definition run_c02 := run_sm proj_c02 mon_c02.
-Definition run_c04 := run_sm proj_c04 mon_true.
+Definition mon_c04 (c : smcase) (t : list action) : bool := match c with KSm _ _ _ cup _ _ _ _ => accepts step4 (init4 cup) t end.
+Definition run_c04 := run_sm proj_c04 mon_c04.
 Definition mon_c05 (c : smcase) (t : list action) : bool := match c with KSm ep _ _ _ _ _ _ _ => accepts step5 (init5 ep) t end.
 Definition run_c05 := run_sm proj_c05 mon_c05.
 Definition mon_c06 (c : smcase) (t : list action) : bool :=
@@ -60,12 +61,30 @@ Definition mon_c10 (c : smcase) (t : list action) : bool :=
   match c with KSm _ _ _ cup apps _ _ _ =>
     accepts step10 (init10 cup apps) t && accepts step6ids {| i_in := false; i_sess := None; i_reqs := [] |} t end.
 Definition run_c10 := run_sm proj_c10 mon_c10.
-Definition run_c12 := run_sm proj_c12 mon_true.
+Definition mon_c12 (c : smcase) (t : list action) : bool := accepts step12 init12 t.
+Definition run_c12 := run_sm proj_c12 mon_c12.
 Definition run_c14 := run_sm proj_all mon_true.
 Definition run_c18 := run_sm proj_c18 mon_true.
 
 (* C11: requests, replies and everything that decides the reply or depends on the request's options *)
 Definition proj_c11 (a : action) : bool :=
   match a with ARequest _ _ | AReply _ _ | APolicy _ _ | AEvent (EvState _) | AEvent (EvResult _) | AInstaller IReboot _ => true | _ => false end.
-Definition mon_c11 (c : smcase) (t : list action) : bool := match c with KSm ep _ _ _ _ _ _ _ => match ep with EStart => accepts step11 init11 t | EOneshot => true end end.
+(* run-time addition to step11: an on-demand request sent while the machine waits for the reboot must lead to the
+   reboot question being asked again (as on-demand) before the next ping goes out *)
+Record q11x := { base11 : q11; askdue11 : bool }.
+Definition step11x (q : q11x) (a : action) : option q11x :=
+  match step11 (base11 q) a with
+  | None => None
+  | Some b =>
+      let keep := Some {| base11 := b; askdue11 := askdue11 q |} in
+      match a with
+      | ARequest _ OnDemand => match ph11_ (base11 q) with P11Reboot => Some {| base11 := b; askdue11 := true |} | _ => keep end
+      | APolicy (QRebootAllowed OnDemand) _ | AEvent (EvState Idle) => Some {| base11 := b; askdue11 := false |}
+      | AHttp _ _ => if askdue11 q then None else keep
+      | _ => keep
+      end
+  end.
+Definition mon_c11 (c : smcase) (t : list action) : bool :=
+  match c with KSm ep _ _ _ _ _ _ _ =>
+    match ep with EStart => accepts step11x {| base11 := init11; askdue11 := false |} t | EOneshot => true end end.
 Definition run_c11 := run_sm proj_c11 mon_c11.
